@@ -22,6 +22,60 @@ def read_cases(path):
     return d, order
 
 
+def phase_C13(tier, seed, st, stats):
+    """the x86 machine model (X86.v) run on the instruction lists translated from the .s files, against what the
+    real kernels returned on the same arguments: ties translator T2 and the machine model to the CPU.  The
+    interpreter is run at six placements (page start, odd address, flush against the end of a page, three bytes
+    before it, starting seven bytes before a page end, crossing one), with the surrounding memory all 0x00, all
+    0xff and all equal to the needle, with and without AVX2 / POPCNT, through both entry points."""
+    base, order = read_cases(os.path.join(BUILD, "run", "C13", "cases.tsv"))
+    cap_len = 320 if tier == "quick" else 1200
+    cap_n = 2500 if tier == "quick" else 12000
+    picked, seen = [], set()
+    for key in order:
+        if not key.startswith("k.") or key in seen:
+            continue
+        seen.add(key)
+        f = key.split("\t")
+        if len(f[1]) > 2 * cap_len:
+            continue
+        picked.append(key)
+    # stratified by length (16-byte buckets) and kernel, round-robin, rather than the beginning of the run
+    if len(picked) > cap_n:
+        groups = {}
+        for k in picked:
+            f = k.split("\t")
+            n = 0 if f[1] == "-" else len(f[1]) // 2
+            groups.setdefault((f[0], n // 16), []).append(k)
+        for g in groups.values():
+            step = max(1, len(g) // 200)
+            g[:] = g[::step]
+        picked, i = [], 0
+        while len(picked) < cap_n and any(groups.values()):
+            for key in sorted(groups):
+                if groups[key]:
+                    picked.append(groups[key].pop(0))
+    outs = vlib.model_on(["x." + k[2:] for k in picked])
+    viol, bad = [], 0
+    lens = {}
+    for key, m in zip(picked, outs):
+        got = m.get("I")
+        want = {o[0] for o in base[key]}
+        f = key.split("\t")
+        n = 0 if f[1] == "-" else len(f[1]) // 2
+        lens[min(n // 16, 20)] = lens.get(min(n // 16, 20), 0) + 1
+        if len(want) != 1 or got not in want:
+            bad += 1
+            if len(viol) < 5:
+                viol.append({"kind": "x86 machine model on the translated assembly != the kernel's observed result "
+                                     "(correspondence of X86.v / tools/asm2prog.py with the CPU no longer checks)",
+                             "case": key, "detail": "kernel returned %s, machine model %s" % (sorted(want), got)})
+    cov = {"x86_model_validation": {"kernel_cases_replayed_in_the_machine_model": len(picked), "disagreements": bad,
+                                    "length_histogram_16B_buckets": {str(k): v for k, v in sorted(lens.items())},
+                                    "placements": 6, "surroundings": 3, "feature_combinations": 4, "entry_points": 2}}
+    return cov, viol
+
+
 def phase_C14(tier, seed, st, stats):
     """run the same corpus under every configuration and compare case by case with the default run"""
     base_dir = os.path.join(BUILD, "run", "C14")
